@@ -1053,6 +1053,49 @@ func (c *Ctx) c11WrappedReason() {
 			}
 		}
 	}
+	// second obligation: a comparison of lengths on the way to the rewriting does not exclude equal lengths — the wrapped
+	// error may say everything the parsed text says (then nothing is left for the reason), and excluding that case keeps
+	// the whole reason, which is said twice
+	{
+		bad := ""
+		for _, st := range reasonStores {
+			for _, b := range f.Blocks {
+				ifi, ok := b.Instrs[len(b.Instrs)-1].(*ssa.If)
+				if !ok {
+					continue
+				}
+				side := -1
+				if edgeDominates(b, 0, st.Block()) {
+					side = 0
+				} else if edgeDominates(b, 1, st.Block()) {
+					side = 1
+				}
+				bo, isB := ifi.Cond.(*ssa.BinOp)
+				if side < 0 || !isB {
+					continue
+				}
+				isLen := func(v ssa.Value) bool {
+					cl, ok := v.(*ssa.Call)
+					return ok && calleeFull(&cl.Call) == "builtin.len"
+				}
+				if !isLen(bo.X) || !isLen(bo.Y) || !c11DependsOn(bo, desc, map[ssa.Value]bool{}, 0) {
+					continue
+				}
+				excludes := false
+				switch bo.Op {
+				case token.LSS, token.GTR, token.NEQ:
+					excludes = side == 0
+				case token.LEQ, token.GEQ, token.EQL:
+					excludes = side == 1
+				}
+				if excludes {
+					bad = c.ipos(ifi)
+				}
+			}
+		}
+		c.check(bad == "", "D9", key+":equal-lengths", c.pos(f.Pos()), "length comparisons on the way to the rewriting admit equal lengths",
+			"the comparison at "+bad+" keeps the rewriting of the reason away from the case where the wrapped error's description has as many elements as the parsed text: a wrapped error that already says everything (kind and reason) has its reason said twice in the serialised form")
+	}
 	c.check(good && len(desc) > 0, "D9", key, c.pos(f.Pos()), "the reason is rewritten after comparing the wrapped error's description with the parsed text",
 		"SetWrappedError replaces the parsed kind by the wrapped error and leaves the parsed reason as it is: when the wrapped error has a reason of its own (New(New(ErrConflict, \"inner\"), \"outer\"), WrapIfNotCommonError(…, New(ErrNotFound, \"file a\"), \"ctx\"), every element of a join) its description already holds the first elements of the reason, and the serialised text says them twice — the deserialised error has another reason than the original")
 }
